@@ -3,12 +3,13 @@
 //@file ruzstd/src/encoding/blocks/compressed.rs
 //@module
 #[cfg(any(kani, killingspark_zstd_rs_verif))]
-#[allow(dead_code, unreachable_pub, static_mut_refs)]
+#[allow(dead_code, unreachable_pub, static_mut_refs, trivial_casts, private_interfaces)]
 pub(crate) mod verif_e6 {
     use super::*;
     use crate::encoding::frame_compressor::FseTables;
     use crate::encoding::CompressionLevel;
     use crate::fse::fse_encoder::verif_fse_dummy::dummy;
+    use crate::encoding::Sequence;
 
     pub(crate) static mut L_CALLS: u32 = 0;   // compress_literals calls
     pub(crate) static mut R_CALLS: u32 = 0;   // raw_literals calls
@@ -58,6 +59,88 @@ pub(crate) mod verif_e6 {
         }
         core::mem::forget(state);
     }
+    // ---- sequences part of compress_block: what its callees are handed (all callees are contract stubs) ----
+    pub(crate) static mut CT_N: usize = 0;
+    pub(crate) static mut CT_TABLE: [usize; 3] = [0; 3];   // address of the default table passed (identifies the code type)
+    pub(crate) static mut CT_MAXLOG: [u8; 3] = [0; 3];
+    pub(crate) static mut ES_CALLS: u32 = 0;
+    pub(crate) static mut ES_NSEQ: usize = 0;
+    pub(crate) static mut ES_SEQ0: (u32, u32, u32) = (0, 0, 0);
+
+    /// contract stub of choose_table: records the maximum accuracy log it is asked to respect for which code type
+    pub(crate) fn stub_choose_table<'a>(_previous: Option<&'a FSETable>, default_table: &'a FSETable, _data: impl Iterator<Item = u8>, max_log: u8) -> FseTableMode<'a> {
+        unsafe {
+            assert!(CT_N < 3, "E6: one table choice per code type");
+            CT_TABLE[CT_N] = default_table as *const FSETable as usize;
+            CT_MAXLOG[CT_N] = max_log;
+            CT_N += 1;
+        }
+        FseTableMode::Predefined(default_table)
+    }
+    pub(crate) fn stub_encode_sequences(sequences: &[crate::blocks::sequence_section::Sequence], _w: &mut BitWriter<&mut Vec<u8>>, _ll: &FSETable, _ml: &FSETable, _of: &FSETable) {
+        unsafe {
+            ES_CALLS += 1;
+            ES_NSEQ = sequences.len();
+            ES_SEQ0 = (sequences[0].ll, sequences[0].ml, sequences[0].of);
+        }
+    }
+
+    /// a matcher reporting: 2 literals + a match (offset, length symbolic), then 1 trailing literal
+    pub(crate) struct SeqMatcher { pub data: Vec<u8>, pub offset: usize, pub match_len: usize }
+    impl Matcher for SeqMatcher {
+        fn get_next_space(&mut self) -> Vec<u8> { Vec::new() }
+        fn get_last_space(&mut self) -> &[u8] { &self.data }
+        fn commit_space(&mut self, space: Vec<u8>) { self.data = space; }
+        fn skip_matching(&mut self) {}
+        fn start_matching(&mut self, mut h: impl for<'a> FnMut(Sequence<'a>)) {
+            h(Sequence::Triple { literals: &self.data[0..2], offset: self.offset, match_len: self.match_len });
+            h(Sequence::Literals { literals: &self.data[2..3] });
+        }
+        fn reset(&mut self, _l: CompressionLevel) {}
+        fn window_size(&self) -> u64 { 1 << 17 }
+    }
+
+    /// RFC 8878 3.1.1.3.2.1.1: maximum accuracy logs of the three sequence code tables (literal lengths 9, match lengths 9, offsets 8);
+    /// a table built with a larger log is rejected by every decoder. Also: the sequence handed on is the matcher's, with the encoder's
+    /// +3 offset convention (offset values 1..=3 are the repeat codes)
+    #[cfg(kani)]
+    #[kani::proof]
+    #[kani::unwind(8)]
+    #[kani::stub(super::compress_literals, stub_compress_literals)]
+    #[kani::stub(super::raw_literals, stub_raw_literals)]
+    #[kani::stub(super::choose_table, stub_choose_table)]
+    #[kani::stub(super::encode_sequences, stub_encode_sequences)]
+    fn e6_sequences_call_sites() {
+        let offset: usize = kani::any();
+        let match_len: usize = kani::any();
+        kani::assume(offset >= 1 && offset <= 1 << 17 && match_len >= 3 && match_len <= 1 << 17);
+        unsafe { L_CALLS = 0; R_CALLS = 0; CT_N = 0; ES_CALLS = 0; }
+        let mut state = CompressState {
+            matcher: SeqMatcher { data: alloc::vec![1u8, 2, 3], offset, match_len },
+            last_huff_table: None,
+            fse_tables: FseTables { ll_default: dummy(), ll_previous: None, ml_default: dummy(), ml_previous: None, of_default: dummy(), of_previous: None },
+        };
+        let (ll_t, ml_t, of_t) = (&state.fse_tables.ll_default as *const FSETable as usize, &state.fse_tables.ml_default as *const FSETable as usize, &state.fse_tables.of_default as *const FSETable as usize);
+        let mut out = Vec::new();
+        compress_block(&mut state, &mut out);
+        unsafe {
+            assert!(R_CALLS == 1 && R_LEN == 3 && L_CALLS == 0, "E6: the three literal bytes are written once, raw (short literals)");
+            assert!(CT_N == 3 && ES_CALLS == 1 && ES_NSEQ == 1, "E6: one table per code type, one sequence handed to the sequence writer");
+            let mut i = 0;
+            while i < 3 {
+                if CT_TABLE[i] == ll_t { assert!(CT_MAXLOG[i] <= 9, "E6: literal-length table: accuracy log at most 9"); }
+                else if CT_TABLE[i] == ml_t { assert!(CT_MAXLOG[i] <= 9, "E6: match-length table: accuracy log at most 9"); }
+                else if CT_TABLE[i] == of_t { assert!(CT_MAXLOG[i] <= 8, "E6: offset table: accuracy log at most 8 (RFC 8878: Max_Accuracy_Log for offsets)"); }
+                else { assert!(false, "E6: unknown default table"); }
+                assert!(CT_MAXLOG[i] >= 5, "E6: accuracy logs below 5 cannot be described");
+                i += 1;
+            }
+            assert!(CT_TABLE[0] != CT_TABLE[1] && CT_TABLE[1] != CT_TABLE[2] && CT_TABLE[0] != CT_TABLE[2], "E6: each code type gets its own table");
+            assert!(ES_SEQ0 == (2, match_len as u32, (offset + 3) as u32), "E6: the sequence written is the matcher's (literal run 2, its match length, offset + 3)");
+        }
+        core::mem::forget(state);
+    }
+
     macro_rules! e6 {
         ($name:ident, $n:expr, $same:expr) => {
             #[cfg(kani)]
@@ -74,3 +157,4 @@ pub(crate) mod verif_e6 {
 //@harness e6_literals_1025_single_value kind=proof fn=compress_block props=C16,C13 tier=thorough bound="CONCRETE: 1025 literals of one byte value (the F8 regression input), no sequences; compress_literals / raw_literals are contract stubs" timeout=3000 heavy=yes
 //@assume in e6_* compress_literals (contract: Verus E8) and raw_literals are contract stubs; the matcher is a scripted one reporting a single literal run; bounded executions on concrete data, not proofs
 //@assume NOT RUN: the two-value variants (1025 and 1024 literals) exhaust CBMC's memory (also without reachability checks) and are not registered; the registered single-value run takes ~6 min (thorough tier)
+//@harness e6_sequences_call_sites kind=proof fn=compress_block props=C02,C16,C12 tier=quick bound="one scripted sequence (2 literals, symbolic offset 1..=128 KiB and match length 3..=128 KiB, 1 trailing literal); every callee of compress_block is a contract stub" timeout=1500
